@@ -1,4 +1,4 @@
-import Amgcl.Proofs.EnergySpd
+import Amgcl.Proofs.EnergyBuild
 import Mathlib.LinearAlgebra.Matrix.Notation
 import Mathlib.Tactic.FinCases
 import Mathlib.Tactic.NormNum
@@ -25,7 +25,7 @@ theorem galerkin42 : A2 = P4ᵀ * A4 * P4 := by
 
 theorem galerkin21 : A1 = P2ᵀ * A2 * P2 := by
   ext i j
-  fin_cases i <;> fin_cases j <;> simp [A1, A2, P2, Matrix.mul_apply, Fin.sum_univ_succ] <;> norm_num
+  fin_cases i; fin_cases j; simp [A1, A2, P2, Matrix.mul_apply, Fin.sum_univ_succ]; norm_num
 
 theorem en_A4 (v : Fin 4 → ℚ) :
     en A4 v v = v 0 ^ 2 + (v 0 - v 1) ^ 2 + (v 1 - v 2) ^ 2 + (v 2 - v 3) ^ 2 + v 3 ^ 2 := by
@@ -108,5 +108,22 @@ theorem hJac_OK : hJac.OK := by
 
 theorem hJac_Sym : hJac.Sym :=
   ⟨(jacobiN_transpose _ _).symm, (jacobiN_transpose _ _).symm, (jacobiN_transpose _ _).symm⟩
+
+/-- the transfer operators of the three-level example `4 → 2 → 1` satisfy `Transfers.Good` for every proved smoother -/
+theorem transfers_good (sm : ProvedSmoother ℚ) :
+    Transfers.Good sm.Q A4
+      (.cons P4 P4ᵀ (.cons P2 P2ᵀ (.coarsest false))) := by
+  have e1 : P4ᵀ * A4 * P4 = A2 := galerkin42.symm
+  have e2 : P2ᵀ * A2 * P2 = A1 := galerkin21.symm
+  cases sm with
+  | gaussSeidel => exact ⟨trivial, rfl, inj_P4, trivial, rfl, inj_P2, trivial⟩
+  | dampedJacobi ω =>
+    refine ⟨wdd_A4, rfl, inj_P4, ?_⟩
+    rw [e1]; refine ⟨wdd_A2, rfl, inj_P2, ?_⟩
+    rw [e2]; exact wdd_A1
+  | spai0 =>
+    refine ⟨wdd_A4, rfl, inj_P4, ?_⟩
+    rw [e1]; refine ⟨wdd_A2, rfl, inj_P2, ?_⟩
+    rw [e2]; exact wdd_A1
 
 end Amgcl.Energy.Example
